@@ -453,9 +453,39 @@ fn tagf(t: u16) -> impl Fn(V) -> V + Clone {
     }
 }
 
+/// A service that reaches itself through its own `RefCell` handle from inside `call` (an internal
+/// redirect): the first time a request comes in it is tagged and sent through the handle again.
+struct Redirect {
+    me: RefCell<std::rc::Weak<RefCell<Redirect>>>,
+    leaf: Leaf,
+}
+
+impl Service<V> for Redirect {
+    type Response = V;
+    type Error = V;
+    type Future = LeafFut;
+    fn poll_ready(&self, cx: &mut Context<'_>) -> Poll<Result<(), V>> {
+        self.leaf.poll_ready(cx)
+    }
+    fn call(&self, mut req: V) -> LeafFut {
+        if !req.contains(&41) {
+            req.push(41);
+            let me = self.me.borrow().upgrade().expect("handle alive");
+            Service::call(&*me, req)
+        } else {
+            self.leaf.call(req)
+        }
+    }
+}
+
 /// Un-erased nestings (concrete combinator types all the way down).
 fn build_static(k: u8) -> BoxSvc {
-    match k % 5 {
+    match k % 6 {
+        5 => {
+            let cell = Rc::new(RefCell::new(Redirect { me: RefCell::new(std::rc::Weak::new()), leaf: Leaf(0) }));
+            *cell.borrow().me.borrow_mut() = Rc::downgrade(&cell);
+            boxed::service(cell)
+        }
         0 => boxed::service(Leaf(0).and_then(Leaf(1)).map(tagf(31)).map_err(tagf(32))),
         1 => boxed::service(apply_fn(Leaf(0).and_then(Leaf(1)), |mut req: V, svc: &_| {
             req.push(33);
@@ -471,7 +501,9 @@ fn build_static(k: u8) -> BoxSvc {
 fn static_shape(k: u8) -> Node {
     use Node::*;
     let l = |i| Box::new(Leaf(i));
-    match k % 5 {
+    match k % 6 {
+        // re-entrant call through the RefCell wrapper: the request is tagged once, then the leaf
+        5 => ApplyFnNoOut(l(0), 41).lower(),
         0 => MapErr(Box::new(Map(Box::new(AndThen(l(0), l(1))), 31)), 32),
         // the closure does not tag the response
         1 => AndThen(Box::new(ApplyFnNoOut(Box::new(AndThen(l(0), l(1))), 33).lower()), l(2)),
@@ -1385,7 +1417,7 @@ impl Engine for SvcSim {
     fn gen_config(_prop: &str, _tier: Tier, rng: &mut Rng) -> Config {
         let factory_mode = rng.chance(2, 5);
         let leaves = rng.range(1, 4) as usize;
-        let tree = if rng.chance(1, 8) { Node::Static(rng.below(5) as u8) } else { gen_node(rng, 3, leaves) };
+        let tree = if rng.chance(1, 8) { Node::Static(rng.below(6) as u8) } else { gen_node(rng, 3, leaves) };
         let mut next_leaf = 0;
         let ftree = if rng.chance(1, 5) { FNode::StaticF(rng.below(8) as u8) } else { gen_fnode(rng, 3, &mut next_leaf, 8) };
         Config {
@@ -1415,7 +1447,7 @@ impl Engine for SvcSim {
     fn describe(prop: &str) -> Describe {
         Describe {
             rule: format!(
-                "random combinator trees up to depth 3 over and_then / map / map_err / apply_fn / Transform-wrapped / boxed::service / boxed::rc_service / Rc / RefCell / Box (type-erased between nodes with the crate's own boxed wrappers) plus 5 fully static nestings, and factory trees over and_then / map / map_err / map_init_err / map_config / apply_fn_factory / apply(Transform) / boxed::factory / Rc / fn_factory_with_config plus 6 static ones (unit_config, apply_cfg, apply_cfg_factory, fn_factory, Arc); scripted leaves whose readiness, call and construction futures advance only by simulator actions (with a wake); strict-wake executor with a fresh waker per poll; {}; non-trivial = >=1 call completed and >=1 Pending poll (or a factory run); distinct = distinct event-trace hash",
+                "random combinator trees up to depth 3 over and_then / map / map_err / apply_fn / Transform-wrapped / boxed::service / boxed::rc_service / Rc / RefCell / Box (type-erased between nodes with the crate's own boxed wrappers) plus 6 fully static nestings (one of them a service that re-enters its own RefCell handle from inside call), and factory trees over and_then / map / map_err / map_init_err / map_config / apply_fn_factory / apply(Transform) / boxed::factory / Rc / fn_factory_with_config plus 6 static ones (unit_config, apply_cfg, apply_cfg_factory, fn_factory, Arc); scripted leaves whose readiness, call and construction futures advance only by simulator actions (with a wake); strict-wake executor with a fresh waker per poll; {}; non-trivial = >=1 call completed and >=1 Pending poll (or a factory run); distinct = distinct event-trace hash",
                 if prop == "C11" {
                     "oracle = tree interpreter: result value with trace, exact sequence of inner calls (also for calls that outlive the service: in a third of the runs the service may be dropped while calls are in flight), one build per inner factory with the supplied config, first init error"
                 } else {
